@@ -67,26 +67,18 @@ Theorem validator_broadcast_spec :
 Proof. exact validator_broadcast_spec_proof. Qed.
 Print Assumptions validator_broadcast_spec.
 
-(* Full statement for broadcast_to (is_result=True):
-     forall s target, match np_broadcast_to s target with Some t => v = Ok t | None => v = Raise ValueError end.
-   FALSE of the code: zip() stops at the shorter shape, so an operand with more axes than the target
-   is accepted (clause broadcast_to_more_dims_than_target).  Proved part: operands with at most as
-   many axes as the target. *)
-Theorem validator_broadcast_to_partial :
+(* broadcast_to (is_result=True).  Until commit 7dd4784 zip() stopped at the shorter shape and an operand
+   with more axes than the target was accepted (the former validator_broadcast_to_refuted); the guard
+   `is_result and len(shape1) > len(shape2)` is now part of the generated test (sv_bcast_more_dims) and the
+   statement holds for every pair of shapes. *)
+Theorem validator_broadcast_to_spec :
   forall s target : list Z,
-    (length s <= length target)%nat ->
     match np_broadcast_to s target with
     | Some t => v_broadcast_shape true s target = Ok t
     | None => v_broadcast_shape true s target = Raise ValueError
     end.
-Proof. exact validator_broadcast_to_partial_proof. Qed.
-Print Assumptions validator_broadcast_to_partial.
-
-Theorem validator_broadcast_to_refuted :
-  exists s target : list Z,
-    np_broadcast_to s target = None /\ exists t, v_broadcast_shape true s target = Ok t.
-Proof. exact validator_broadcast_to_refuted_proof. Qed.
-Print Assumptions validator_broadcast_to_refuted.
+Proof. exact validator_broadcast_to_spec_proof. Qed.
+Print Assumptions validator_broadcast_to_spec.
 
 Theorem validator_tensordot_spec :
   forall ea eb : list Z,
@@ -251,7 +243,6 @@ Print Assumptions valid_args_no_internal_error.
 
 Theorem invalid_args_clean_rejection :
   forall m : vop, vop_np_accepts m = false ->
-    (forall s target, m = MBroadcastTo s target -> (length s <= length target)%nat) ->
     exists e, model_verdict m = Some (Some e) /\ clean e = true.
 Proof. exact invalid_args_clean_rejection_proof. Qed.
 Print Assumptions invalid_args_clean_rejection.
